@@ -168,9 +168,16 @@ def execute(spec):
     mk_oracle, mk_arg, kw = _sources(spec, text)
     f = mk_oracle()
     try:
+        lines = list(f)          # the lines as this kind of file object delivers them (what csv.reader pulls)
+    finally:
+        f.close()
+    f = mk_oracle()
+    try:
         lex = list(csv.reader(f, delimiter=spec["delim"]))
     except csv.Error as e:
-        return {"skip": "csv.reader itself rejects this text"}
+        # the lexer model (Serif.CsvLex) must reject the text as well; what read_csv does with it is not judged
+        return {"fam": "lex", "case": {"lines": lines, "delim": spec["delim"], "src": spec["src"], "has_header": bool(spec["hh"]),
+                                       "records": []}, "impl": {"lexerr": True}}
     finally:
         f.close()
     I = Interner()
@@ -190,7 +197,8 @@ def execute(spec):
         sw = I.wire(s)
         return {"t": t, "b": (not t) or t.strip() == "", "i": i, "f": fl, "s": [sw[0], sw[2]]}
 
-    case = {"has_header": bool(spec["hh"]), "src": spec["src"], "records": [[cell(t) for t in rec] for rec in lex]}
+    case = {"has_header": bool(spec["hh"]), "src": spec["src"], "records": [[cell(t) for t in rec] for rec in lex],
+            "lines": lines, "delim": spec["delim"]}
     arg = mk_arg()
     try:
         t = read_csv(arg, delimiter=spec["delim"], has_header=spec["hh"], **kw)
